@@ -38,13 +38,16 @@ func lifeSpec() kit.Spec {
 		{ID: 12, Life: "transient", Outs: []kit.Out{{T: "D2"}}, Group: "h", Deps: []kit.Dep{{T: "D3"}}},
 		{ID: 13, Life: "singleton", Outs: []kit.Out{{T: "D1"}}, Name: "s", Deps: []kit.Dep{{T: "D3"}}},
 		{ID: 14, Life: "scoped", In: true, Outs: []kit.Out{{T: "P3"}}, Deps: []kit.Dep{{T: "D2", Group: "h"}, {T: "D2", Group: "g"}, {T: "P5", Key: "k"}, {T: "P3", Key: "k"}, {T: "scope"}}},
+		{ID: 16, Life: "singleton", Kind: "instance", Outs: []kit.Out{{T: "P4"}}, Name: "i2"},
+		{ID: 17, Life: "singleton", Kind: "instance", Outs: []kit.Out{{T: "P4"}}, Group: "gi"},
+		{ID: 18, Life: "singleton", Kind: "instance", Outs: []kit.Out{{T: "P4"}}, Group: "gi"},
 		{ID: 15, Life: "scoped", Kind: "void", Deps: []kit.Dep{{T: "P1"}, {T: "D3"}}},
 	}}
 }
 
 var lifeProbes = []Op{
 	{Kind: "get", T: "D0"}, {Kind: "get", T: "P1"}, {Kind: "get", T: "P3", Key: "k"}, {Kind: "get", T: "IB"},
-	{Kind: "group", T: "D2", Group: "g"}, {Kind: "get", T: "P4"}, {Kind: "get", T: "D1", Key: "s"},
+	{Kind: "group", T: "D2", Group: "g"}, {Kind: "get", T: "P4"}, {Kind: "get", T: "P4", Key: "i2"}, {Kind: "group", T: "P4", Group: "gi"}, {Kind: "get", T: "D1", Key: "s"},
 	{Kind: "get", T: "D3"}, {Kind: "get", T: "P5", Key: "k"},
 	{Kind: "get", T: "D4"}, {Kind: "get", T: "P5"}, {Kind: "get", T: "D5"}, {Kind: "group", T: "D2", Group: "h"}, {Kind: "get", T: "P3"},
 }
@@ -154,6 +157,8 @@ func lifeConcScenarios(prop string) []*Scenario {
 		return []*Scenario{
 			mk("transient+transient", nil, []Op{{Kind: "get", Scope: "s1", T: "D3"}}, []Op{{Kind: "get", Scope: "s1", T: "D3"}}),
 			mk("keyed+group", nil, []Op{{Kind: "get", Scope: "s1", T: "P5", Key: "k"}}, []Op{{Kind: "group", Scope: "s1", T: "D2", Group: "h"}}),
+			mk("consumer-in-two-scopes", nil, []Op{{Kind: "get", Scope: "s1", T: "D4"}}, []Op{{Kind: "get", Scope: "s2", T: "D4"}}),
+			mk("keyed-consumer-x2", nil, []Op{{Kind: "get", Scope: "s1", T: "P5", Key: "k"}}, []Op{{Kind: "get", Scope: "s2", T: "P5", Key: "k"}}),
 		}
 	}
 	return nil
